@@ -1,0 +1,39 @@
+//go:build verif
+
+// Contracts for package partitions (comment-only; read by /verif/govc, never compiled into olric).
+
+package partitions
+
+// A partition table holds a non-nil partition for every id below count.
+//@ pred (ps *Partitions) inv() = ps != nil && ps.m != nil && forall i uint64 :: i < ps.count ==> (i in ps.m && ps.m[i] != nil)
+
+//@ func New(count uint64, kind Kind) *Partitions
+//@   props C16 C13
+//@   flag termination
+//@   ensures #inv: result.inv()
+//@   ensures #count: result.count == count && result.kind == kind
+//@   loop 0 invariant #built: ps != nil && ps.m != nil && ps.count == count && ps.kind == kind && i <= count && forall j uint64 :: j < i ==> (j in ps.m && ps.m[j] != nil)
+//@   loop 0 decreases count - i
+
+//@ func (ps *Partitions) PartitionByID(partID uint64) *Partition
+//@   props C16 C13
+//@   requires #inv: ps.inv()
+//@   requires #in_range: partID < ps.count
+//@   ensures  #nonnil: result != nil
+//@   ensures  #exact: result == ps.m[partID]
+//@   modifies nothing
+
+//@ func (ps *Partitions) PartitionIDByHKey(hkey uint64) uint64
+//@   props C13 C16
+//@   requires #count_positive: ps != nil && ps.count > 0
+//@   ensures  #mod: result == hkey % ps.count
+//@   ensures  #in_range: result < ps.count
+//@   modifies nothing
+
+//@ func (ps *Partitions) PartitionByHKey(hkey uint64) *Partition
+//@   props C13 C16
+//@   requires #inv: ps.inv()
+//@   requires #count_positive: ps.count > 0
+//@   ensures  #nonnil: result != nil
+//@   ensures  #exact: result == ps.m[hkey % ps.count]
+//@   modifies nothing
